@@ -49,8 +49,8 @@ Expected(x) ==
       [] x.k = "convert" -> [n |-> 0]
 Hash(x) == (x.nv * 7 + Len(x.tris) * 13 + Len(x.I) * 3 + (IF Len(x.I) > 0 THEN x.I[1] ELSE 0) + FoldLeft(LAMBDA a, t : a + t[1] + 2 * t[2] + 3 * t[3], 0, x.tris))
 BoolN(b) == IF b THEN 1 ELSE 0
-ConvHash(x) == (IF x.odd = "" THEN 0 ELSE IF x.odd = "rootLater" THEN 1 ELSE 2) + 3 * BoolN(x.manyBones) + BoolN(x.headParts) + 2 * BoolN(x.removeParallax) + 4 * BoolN(x.calcBounds) + 8 * BoolN(x.fixBSX) + 16 * BoolN(x.fixShader) + 32 * BoolN(x.dupNames) + 64 * BoolN(x.strips)
-Picked(x) == Sample = 1 \/ (IF x.k = "delverts" THEN Hash(x) % Sample = Phase % Sample ELSE IF x.k = "convert" THEN ConvHash(x) % Sample = Phase % Sample ELSE TRUE)
+ConvHash(x) == 3 * BoolN(x.manyBones) + BoolN(x.headParts) + 2 * BoolN(x.removeParallax) + 4 * BoolN(x.calcBounds) + 8 * BoolN(x.fixBSX) + 16 * BoolN(x.fixShader) + 32 * BoolN(x.dupNames) + 64 * BoolN(x.strips)
+Picked(x) == Sample = 1 \/ (IF x.k = "delverts" THEN Hash(x) % Sample = Phase % Sample ELSE IF x.k = "convert" THEN (x.odd # "" \/ ConvHash(x) % Sample = Phase % Sample) ELSE TRUE)
 Init == c \in Cases
 Next == UNCHANGED c
 Spec == Init /\ [][Next]_c
